@@ -232,6 +232,60 @@ def consume_tests(ctx, crate):
                    "the loop of %s is driven by %s (is_in calls: %d, used as a test: %s)" % (short, raw_cmp or "something else than is_in", len(calls), uses), at=b.span, kind="N")
 
 
+def helper_loops_advance(ctx, crate, clause="merge-skeleton"):
+    """N (CFG): the helpers that walk the *other* operand (`consume_while_overlapped*`,
+    `not_in_cell_4_or`, `not_in_cell_4_xor`) advance that operand's cursor on every round of their
+    loops: in the flow graph of each, once the blocks that call `BMOCIter::next` — or a helper that itself
+    calls it on every path to its return — are taken out, no cycle is left among the loops that test a
+    cell of the cursor.  A round that re-tests the same cell never ends (the operators of C07/C08 then
+    return nothing at all).  `for` loops over ranges (go_up / go_down fills) advance by construction and
+    are not the subject."""
+    from mir import callee_name
+    nxt = {p_ for p_ in crate.bodies if "::BMOCIter" in p_ and p_.endswith(" as std::iter::Iterator>::next")}
+    helpers = [M + "consume_while_overlapped", M + "consume_while_overlapped_and_partial"] + \
+              [p_ for p_ in crate.bodies if p_.startswith(M) and p_.split("::")[-1] in ("not_in_cell_4_or", "not_in_cell_4_xor")]
+    helpers = [h for h in helpers if crate.body(h) is not None]
+    if not nxt or not helpers:
+        ctx.not_decided("helper loops: no BMOCIter::next / no consume helper found"); return
+    must = set(nxt)
+    def adv_blocks(b):
+        return {i for i, t in b.calls() if callee_name(t["func"]) in must}
+    changed = True
+    while changed:
+        changed = False
+        for h in helpers:
+            if h in must: continue
+            b = crate.body(h); av = adv_blocks(b)
+            reach = b.reachable(0, avoid=av)
+            if not any(r in reach for r in b.return_blocks()):
+                must.add(h); changed = True
+    n = 0
+    for h in helpers:
+        b = ctx.anchor(crate, h, clause)
+        if b is None: continue
+        ctx.functions.add(h)
+        av = adv_blocks(b); succ = b.succ(); bad = []
+        for head, blocks in b.natural_loops().items():
+            # `for` loops over ranges / inclusive ranges: their head calls a range `next`
+            rng = [i for i, t in b.calls() if i in blocks and (callee_name(t["func"]) or "").find("ops::Range") >= 0 and (callee_name(t["func"]) or "").endswith("::next")]
+            if rng and not (blocks & av): continue
+            n += 1
+            # a cycle through `head` inside the loop that avoids every advancing block
+            seen = set(); st = [x for x in succ[head] if x in blocks and x not in av] if head not in av else []
+            stuck = False
+            while st:
+                x = st.pop()
+                if x == head: stuck = True; break
+                if x in seen: continue
+                seen.add(x)
+                st.extend(y for y in succ[x] if y in blocks and y not in av)
+            if stuck: bad.append(head)
+        short = h.split("::")[-1]
+        ctx.report(clause, short + ":every-round-advances-the-cursor", not bad, "every cycle of its cursor loops passes through BMOCIter::next (or a helper that always calls it)" if not bad else
+                   "%s: the loop headed at bb%s can go round without advancing the cursor (no call of BMOCIter::next on that cycle)" % (short, bad[0]), at=b.span, kind="N")
+    ctx.floor("cursor-loops-of-the-helpers", n, 4)
+
+
 def run(ctx):
     crate = ctx.crate("rel")
     n = 0
@@ -241,5 +295,9 @@ def run(ctx):
     fill_helpers(ctx, crate)
     containment_test(ctx, crate)
     consume_tests(ctx, crate)
+    helper_loops_advance(ctx, crate)
+    # `or` and `xor` hand their flags to `pack` (to_bmoc_packing): a partial cell must not come out full
+    from rules.c15 import pack_rule
+    pack_rule(ctx, crate)
     ctx.not_decided("that the site rules compose to the documented cell-to-state map on whole BMOCs for all pairs of trees (quantifies over tree shapes)")
     ctx.extra["cases_per_operator"] = 72
